@@ -131,18 +131,22 @@ impl Property for C15 {
         "cases: a victim process fails at a generated point (builtin domain errors, missing file, ownership violation, injected backend write error, spawn/send/nested select inside a receive filter) inside a generated system of by-standers, direct and transitive single-source awaiters that await before, during or after the failure, senders to the victim before/after its death, and a multi-source selector (counted, not judged); each scenario runs under V sampled schedule/configuration variants. Non-trivial: >=2 workers, >=1 out-of-order handled message or injected fault, conclusive. Distinct = distinct (scenario shape, interleaving hash) pairs."
     }
     fn required_probes(&self) -> Vec<&'static str> {
-        vec!["awaiter_failed_with_victims_error", "bystander_unaffected", "client_saw_victim_error", "sender_to_dead_unaffected", "repl_session_survived_odd_line", "awaiter_with_effect_in_flight", "poller_no_longer_awaiting_when_victim_fails", "effect_result_over_binary_limit"]
+        vec!["awaiter_failed_with_victims_error", "bystander_unaffected", "client_saw_victim_error", "sender_to_dead_unaffected", "repl_session_survived_odd_line", "awaiter_with_effect_in_flight", "poller_no_longer_awaiting_when_victim_fails", "effect_result_over_binary_limit", "lines_entered_into_a_failed_session"]
     }
     fn draw_cfg(&self, rng: &mut Rng, scn: &Scenario) -> crate::world::RunCfg {
         // the failure is the scenario's own; no additional random backend faults
         let mut c = super::default_cfg(rng, scn);
         c.faults = scn.fixed_faults.clone();
         c.io_signatures_only = scn.family == "c15-HostlessIo";
+        c.keep_session_after_error = scn.family == "c15-repl-kept-session";
         c
     }
     fn generate(&self, rng: &mut Rng, _tier: Tier) -> Scenario {
         if rng.chance(1, 8) {
             return repl_session(rng);
+        }
+        if rng.chance(1, 30) {
+            return repl_kept_session(rng);
         }
         let fails = [
             Fail::DivZero,
@@ -366,6 +370,15 @@ impl Property for C15 {
     fn judge(&self, scn: &Scenario, _refdata: Option<&RefData>, r: &RunResult) -> Vec<Violation> {
         let mut v = Vec::new();
         let e = &scn.expect;
+        if let Some(by) = e.get("repl_kept").and_then(|x| x.as_str()) {
+            // the session is dead (every later line reports the error again, or is refused); what must
+            // hold is that nothing else is: the by-stander finishes with its value
+            match r.procs.get("R0/0") {
+                Some(x) if x == by => {}
+                other => v.push(Violation::new("C15", "containment", "session-or-bystander-lost", format!("after lines entered into a failed session the by-stander R0/0 ended with {:?}; expected {by}", other), r.steps)),
+            }
+            return v;
+        }
         if let Some(fin) = e.get("repl_final").and_then(|x| x.as_str()) {
             // an ill-behaved REPL line must not take the worker (and with it the by-stander) down
             match r.outs.last() {
@@ -429,6 +442,37 @@ impl Property for C15 {
 /// REPL lines that leave the session in an odd state: a line cut short by nil (later bindings
 /// never bound), a tail call at the top level, an await of a never-bound "process". None may crash
 /// a worker; a by-stander spawned earlier must still be awaitable.
+/// A session whose line fails at run time, in a host whose REPL glue keeps the session (quiver-web):
+/// the following lines resume the failed process. They may report the error again; the worker and the
+/// by-stander on it must survive.
+fn repl_kept_session(rng: &mut Rng) -> Scenario {
+    let n = rng.range(1, 40);
+    let sp = *rng.pick(&[30u32, 200, 600]);
+    let mut ops = vec![ClientOp::Line { session: 0, src: format!("{}, {BY}, b0 = [{n}, {sp}] @by, a = 7", super::c04::SPIN) }];
+    ops.push(ClientOp::Line { session: 0, src: format!("[a, 0] {}", *rng.pick(&["__integer_divide__", "__integer_modulo__"])) });
+    ops.push(ClientOp::Line { session: 0, src: "a".to_string() });
+    if rng.chance(1, 2) {
+        ops.push(ClientOp::Vars { session: 0 });
+    }
+    ops.push(ClientOp::Line { session: 0, src: "!b0".to_string() });
+    let mut h = crate::rng::Fnv::default();
+    h.u64(0x4e92);
+    h.u64(ops.len() as u64);
+    Scenario {
+        family: "c15-repl-kept-session".into(),
+        ops,
+        modules: vec![],
+        files: Default::default(),
+        timing: false,
+        io: false,
+        fixed_faults: Default::default(),
+        expect: serde_json::json!({ "repl_kept": (n + 5).to_string() }),
+        shape: h.0,
+        est_len: 100,
+        min_quantum: 0,
+    }
+}
+
 fn repl_session(rng: &mut Rng) -> Scenario {
     let n = rng.range(1, 40);
     let sp = *rng.pick(&[0u32, 30, 200]);
@@ -480,6 +524,10 @@ fn repl_session(rng: &mut Rng) -> Scenario {
 pub fn probes_from(scn: &Scenario, r: &RunResult) -> BTreeMap<String, u64> {
     let mut m = BTreeMap::new();
     let e = &scn.expect;
+    if e.get("repl_kept").is_some() {
+        m.insert("lines_entered_into_a_failed_session".into(), 1);
+        return m;
+    }
     if e.get("repl_final").is_some() {
         m.insert("repl_session_survived_odd_line".into(), matches!(r.outs.last(), Some(Out::Value(_))) as u64);
         return m;
